@@ -10,6 +10,8 @@ CONSTANTS
  DevNoExpiry = TRUE
  DevLogoutKeeps = FALSE
  DevLimiterPerWindowStart = FALSE
+ PollOnlyStale = FALSE
+ DevSessionPollRevives = FALSE
  DevAnyCookieValid = FALSE
  PairJars = FALSE
 INIT Init
